@@ -149,7 +149,7 @@ def splice(cb, gb, arg_rvalues, dest, target, loc):
 
 ITER = "std::iter::Iterator::"
 STAGES = ("map", "filter", "filter_map", "inspect", "flat_map", "flatten")
-SINKS = ("collect", "any", "all", "for_each", "extend", "find", "find_map", "last")
+SINKS = ("collect", "any", "all", "for_each", "extend", "find", "find_map", "last", "for")
 
 COLLECTIONS = (
     ("std::vec::Vec<", "std::vec::Vec::<T>::new", "std::vec::Vec::<T, A>::push"),
@@ -316,6 +316,53 @@ def chain_of(b, operand, bodies):
     return stages, o
 
 
+def for_loop_shape(b, H):
+    """block H ends in `next(&mut it)` and is the head of a plain loop: (H, switch block, Some block, exhausted target, body blocks) or None"""
+    t = b["blocks"][H]["term"]
+    if t.get("t") is None:
+        return None
+    sw = t["t"]
+    st = b["blocks"][sw]["term"]
+    if st is None or st["k"] != "switch":
+        return None
+    tgt = dict((v, bb) for (v, bb) in st["ts"])
+    if 0 not in tgt or 1 not in tgt:
+        return None
+    exhausted, some = tgt[0], tgt[1]
+    sb = b["blocks"][some]
+    if not sb["stmts"] or sb["stmts"][0]["k"] != "assign" or sb["stmts"][0]["rv"]["k"] != "use" or sb["stmts"][0]["rv"]["o"]["k"] not in ("move", "copy") \
+            or not any(isinstance(e, dict) and e.get("dc") == "Some" for e in sb["stmts"][0]["rv"]["o"]["p"]["pr"]) \
+            or sb["stmts"][0]["rv"]["o"]["p"]["l"] != t["dest"]["l"]:
+        return None
+    # H must contain nothing but the borrow of the iterator (it is entered again for every element)
+    if any(st_["k"] == "assign" and st_["rv"]["k"] != "ref" for st_ in b["blocks"][H]["stmts"]):
+        return None
+    dom = set(dominated(b, H))  # (an enclosing loop leads back to H as well: only what H dominates belongs to this loop)
+    fwd, work = set(), [some]
+    while work:
+        x = work.pop()
+        if x in fwd or x == H or x not in dom or x >= len(b["blocks"]) or b["blocks"][x].get("cleanup") or b["blocks"][x]["term"] is None:
+            continue
+        fwd.add(x)
+        work += succs(b["blocks"][x])
+    body = [x for x in fwd if H in succs(b["blocks"][x])]
+    if not body:
+        return None  # not a loop
+    # every block from which H can be reached again
+    back, work = set(), list(body)
+    preds = {}
+    for x in fwd:
+        for y in succs(b["blocks"][x]):
+            preds.setdefault(y, []).append(x)
+    while work:
+        x = work.pop()
+        if x in back:
+            continue
+        back.add(x)
+        work += [p_ for p_ in preds.get(x, []) if p_ in fwd]
+    return (H, sw, some, exhausted, sorted(back | {some}))
+
+
 def desugar_body(b, bodies, known_uses, log):
     """rewrite the closure-taking adaptor sinks of one body; returns set of closure paths that were spliced"""
     used = set()
@@ -337,14 +384,23 @@ def desugar_body(b, bodies, known_uses, log):
                 sink = "extend"
             else:
                 continue
+            for_loop = None
+            if sink == "next" and t["args"]:
+                for_loop = for_loop_shape(b, bi)
+                if for_loop is None:
+                    continue
+                sink = "for"
             if sink not in SINKS or not t["args"]:
                 continue
             loc = blk["tloc"]
             recv = t["args"][1] if sink == "extend" else t["args"][0]
-            by_ref = sink in ("any", "all", "find", "find_map")  # take &mut self
+            by_ref = sink in ("any", "all", "find", "find_map", "for")  # take &mut self
             src = recv
             if by_ref:
                 d = single_def(b, recv["p"]["l"]) if recv["k"] in ("move", "copy") and not recv["p"]["pr"] else None
+                if d and d[0] == "rv" and d[3]["k"] == "ref" and d[3]["p"]["pr"] == ["deref"]:
+                    # `&mut *r` with `r = &mut it` (the way a `for` loop borrows its iterator)
+                    d = single_def(b, d[3]["p"]["l"])
                 if not (d and d[0] == "rv" and d[3]["k"] == "ref" and not d[3]["p"]["pr"]):
                     continue
                 # the iterator is borrowed, not consumed: if anything else also advances or reads it (a second any() on the same iterator, a
@@ -375,6 +431,8 @@ def desugar_body(b, bodies, known_uses, log):
             if ch is None:
                 continue
             stages, source = ch
+            if sink == "for" and not stages:
+                continue
             sink_f = None
             if sink in ("any", "all", "for_each", "find", "find_map"):
                 if len(t["args"]) != 2:
@@ -456,7 +514,7 @@ def desugar_body(b, bodies, known_uses, log):
             by_ref_first = (stages and stages[0][0] in ("filter", "inspect")) or (not stages and sink == "find")
             ety0 = first_param_ty[1:].lstrip() if by_ref_first and first_param_ty.startswith("&") else first_param_ty
             # a literal array as the source (`[a, b].into_iter().any(f)`): one copy of the element pipeline per element instead of a loop
-            literal = literal_array_source(b, source)
+            literal = literal_array_source(b, source) if sink != "for" else None
             if literal is not None and len(literal) > 6:
                 literal = None
             starts = []
@@ -475,6 +533,9 @@ def desugar_body(b, bodies, known_uses, log):
                 first_bb = bbs[0] if bbs else none
             if sink == "collect":
                 blk["term"] = call(fn_operand(coll[1], []), [], P(acc_l, ty=coll[0]), first_bb, loc)
+            elif sink == "for":
+                # the source iterator is set up once, where the chain's iterator used to be created: in the block that enters the loop
+                pass
             else:
                 if sink == "last":
                     blk["stmts"].append(assign(copy.deepcopy(dest), adt_agg("std::option::Option", "None", 0, []), loc))
@@ -486,7 +547,9 @@ def desugar_body(b, bodies, known_uses, log):
                 after = new_block(b, [], None, loc)
                 if sf[0] == "closure":
                     g, cl_op = sf[1], sf[2]
+                    loff_, boff_ = len(b["locals"]), len(b["blocks"])
                     pro, entry = splice(b, g, [env_rvalue(g, cl_op)] + arg_rvs, P(res, ty=res_ty), after, loc)
+                    instantiate_spliced_closure(b, cl_op, loff_, boff_, bodies)
                     b["blocks"][cur_bb]["stmts"] += pro
                     b["blocks"][cur_bb]["term"] = goto(entry)
                     used.add(g["path"])
@@ -619,6 +682,16 @@ def desugar_body(b, bodies, known_uses, log):
                     b["blocks"][cur_bb]["term"] = {"k": "switch", "d": mv(d2), "dty": "isize", "ts": [[0, skip], [1, hit]], "else": un2}
                     none_stmt(assign(copy.deepcopy(dest), adt_agg("std::option::Option", "None", 0, []), loc))
                     b["blocks"][none]["term"] = goto(cont)
+                elif sink == "for":
+                    # the body of the loop runs for what comes out of the last stage; its `continue`s fetch the next element of the innermost source
+                    h_, sw_, some_, exhausted_, body_ = for_loop
+                    ob = b["blocks"][some_]
+                    ob["stmts"][0] = assign(copy.deepcopy(ob["stmts"][0]["p"]), use(mv(e_l, ety)), ob["stmts"][0].get("loc") or loc)
+                    b["blocks"][cur_bb]["term"] = goto(some_)
+                    for x_ in body_:
+                        nb_ = rename(b["blocks"][x_], {}, {h_: skip})
+                        b["blocks"][x_]["term"] = nb_["term"]
+                    b["blocks"][none]["term"] = goto(exhausted_)
                 elif sink == "last":
                     # every element overwrites what is remembered: after exhaustion the last one is left (None for an empty source)
                     b["blocks"][cur_bb]["stmts"].append(assign(copy.deepcopy(dest), adt_agg("std::option::Option", "Some", 1, [mv(e_l, ety)]), loc))
@@ -633,6 +706,8 @@ def desugar_body(b, bodies, known_uses, log):
                 emit(st_bb, st_e, ety0, st_skip)
             if failed:
                 continue
+            if sink == "for":
+                blk["term"] = goto(first_bb)
             # the stage calls become dead definitions: neutralise them so that they do not show up as call sites
             for (stage, sf, cbk, _fn) in stages:
                 st = b["blocks"][cbk]["term"]
@@ -973,7 +1048,9 @@ def desugar_option_combinators(b, bodies, known_uses, log):
                 after = new_block(b, [], None, loc)
                 if sf[0] == "closure":
                     g = sf[1]
+                    loff_, boff_ = len(b["locals"]), len(b["blocks"])
                     pro, entry = splice(b, g, [env_rvalue(g, cl_op)] + arg_rvs, P(res, ty=rty), after, loc)
+                    instantiate_spliced_closure(b, cl_op, loff_, boff_, bodies)
                     b["blocks"][cur_bb]["stmts"] += pro
                     b["blocks"][cur_bb]["term"] = goto(entry)
                     used.add(g["path"])
@@ -1323,6 +1400,113 @@ def instantiate(b, loff, boff, mapping):
     walk(b["blocks"][boff:])
 
 
+def _fn_item_ret_ty(fty):
+    """`for<..> fn(A, B) -> R {path::of::item}` -> R"""
+    i = fty.find("fn(")
+    if i < 0:
+        return None
+    depth, j = 0, i + 2
+    while j < len(fty):
+        if fty[j] == "(":
+            depth += 1
+        elif fty[j] == ")":
+            depth -= 1
+            if depth == 0:
+                break
+        j += 1
+    rest = fty[j + 1:]
+    if not rest.startswith(" -> "):
+        return None
+    rest = rest[4:]
+    depth = 0
+    for k, ch in enumerate(rest):
+        if ch in "<([":
+            depth += 1
+        elif ch in ">)]":
+            if not (ch == ">" and k > 0 and rest[k - 1] in "-="):
+                depth -= 1
+        elif ch == "{" and depth == 0 and k > 0 and rest[k - 1] == " ":
+            return rest[:k].strip()
+    return None
+
+
+def concrete_return_type(g):
+    """the type of the value a body returns, read off the (single kind of) definition of its return place"""
+    tys = set()
+    for blk in g["blocks"]:
+        if blk.get("cleanup"):
+            continue
+        for st in blk["stmts"]:
+            if st["k"] == "assign" and st["p"]["l"] == 0 and not st["p"]["pr"]:
+                rv = st["rv"]
+                if rv["k"] == "use" and rv["o"]["k"] in ("move", "copy") and not rv["o"]["p"]["pr"]:
+                    tys.add(g["locals"][rv["o"]["p"]["l"]]["ty"])
+                else:
+                    tys.add(None)
+        t = blk["term"]
+        if t and t["k"] == "call" and t["dest"]["l"] == 0 and not t["dest"]["pr"]:
+            tys.add(_fn_item_ret_ty(t["f"].get("ty") or ""))
+    return tys.pop() if len(tys) == 1 else None
+
+
+def instantiate_exact(b, old_ty, new_ty):
+    def sub(t):
+        return t.replace(old_ty, new_ty) if isinstance(t, str) and old_ty in t else t
+
+    def walk(x):
+        if isinstance(x, list):
+            for v in x:
+                walk(v)
+        elif isinstance(x, dict):
+            for key, v in list(x.items()):
+                if key == "ty" and isinstance(v, str):
+                    x[key] = sub(v)
+                elif key == "fn" and isinstance(v, dict):
+                    if isinstance(v.get("gargs"), list):
+                        v["gargs"] = [sub(g_) for g_ in v["gargs"]]
+                    if isinstance(v.get("self_ty"), str):
+                        v["self_ty"] = sub(v["self_ty"])
+                else:
+                    walk(v)
+    for l in b["locals"]:
+        l["ty"] = sub(l["ty"])
+    walk(b["blocks"])
+
+
+def instantiate_spliced_closure(b, cl_op, loff, boff, bodies):
+    """a closure written inside a generic helper mentions the helper's type parameters; when it is spliced into a caller into which that helper was
+    spliced, they stand for what they stood for at that call site"""
+    rs = b.get("_generic_ranges")
+    if not rs or cl_op.get("k") not in ("move", "copy"):
+        return
+    d = single_def(b, cl_op["p"]["l"])
+    if not d or d[0] != "rv":
+        return
+    for (lo, hi, mapping) in rs:
+        if lo <= d[1] < hi:
+            instantiate(b, loff, boff, mapping)
+            resolve_trait_calls(b, boff, bodies)
+            b["_generic_ranges"].append((boff, len(b["blocks"]), mapping))
+            return
+
+
+def resolve_trait_calls(b, boff, bodies):
+    """after a generic helper's parameters have been replaced by the call site's types, a trait method called on a parameter (`child.into()` with
+    `T: Into<Node>`) has a known receiver type: point it at the crate's own implementation, as the compiler does for code that is not generic"""
+    impls = {}
+    for p_, g in bodies.items():
+        if g.get("impl_trait") and g.get("impl_self"):
+            impls.setdefault((g["impl_trait"], g["impl_self"], p_.rsplit("::", 1)[-1]), []).append(p_)
+    for blk in b["blocks"][boff:]:
+        t = blk["term"]
+        fn = callee_of(t) if t and t["k"] == "call" else None
+        if fn is None or not fn.get("trait") or fn.get("resolved_local"):
+            continue
+        cands = impls.get((fn["trait"], fn.get("self_ty"), fn.get("name")), [])
+        if len(cands) == 1:
+            fn.update({"resolved": cands[0], "resolved_krate": fn.get("krate"), "resolved_local": True, "resolved_kind": "Item"})
+
+
 def inline_unknown(data, bodies, known, log):
     unknown = [p for p, g in bodies.items() if p not in known and not is_closure(g) and g.get("kind") in ("Fn", "AssocFn") and not g.get("derived")
                and not reaches_itself(p, bodies, known=known)]
@@ -1355,9 +1539,17 @@ def inline_unknown(data, bodies, known, log):
                         mapping = {k: v for k, v in zip(gen, fn["gargs"]) if k != v and re.match(r"^[A-Za-z_]\w*$", k)}
                         if mapping:
                             instantiate(b, loff, boff, mapping)
+                            resolve_trait_calls(b, boff, bodies)
+                            b.setdefault("_generic_ranges", []).append((boff, len(b["blocks"]), mapping))
                             for st_ in pro:
                                 if isinstance(st_.get("p"), dict) and isinstance(st_["p"].get("ty"), str):
                                     st_["p"]["ty"] = b["locals"][st_["p"]["l"]]["ty"]
+                    oret = g["locals"][0]["ty"]
+                    if oret.startswith("impl "):
+                        # the helper hides its result type (`-> impl Iterator<..>`): inside the caller the value has the type the helper's body gives it
+                        conc = concrete_return_type(g)
+                        if conc and conc != oret and not conc.startswith("impl "):
+                            instantiate_exact(b, oret, conc)
                     b["blocks"][bi]["stmts"] += pro
                     b["blocks"][bi]["term"] = goto(entry)
                     log.append("%s: call to new helper %s spliced in" % (b["path"], g["path"]))
@@ -2063,10 +2255,11 @@ def unroll_literal_array_loops(b, log):
                     or not any(isinstance(e, dict) and e.get("dc") == "Some" for e in sb["stmts"][0]["rv"]["o"]["p"]["pr"]):
                 continue
             # loop body: reachable from `some` without passing H, and able to come back to H
+            dom_h = set(dominated(b, H))
             fwd, work = set(), [some]
             while work:
                 x = work.pop()
-                if x in fwd or x == H or x not in live:
+                if x in fwd or x == H or x not in live or x not in dom_h:
                     continue
                 fwd.add(x)
                 work += succs(b["blocks"][x])
@@ -2455,7 +2648,20 @@ def preprocess(data, known=None, known_uses=None):
         guarded("jump threading", thread_bool_jumps, b, log)
     dropped = set()
     if known is not None:
+        n_log = len(log)
         dropped = inline_unknown(data, bodies, known, log)
+        # a chain may now run across what used to be a call boundary (`helper(x).any(..)` with `helper -> impl Iterator`): desugar once more where something was spliced in
+        touched = set(l.split(": call to new helper", 1)[0] for l in log[n_log:] if ": call to new helper" in l)
+        for b in data["bodies"]:
+            if b["path"] in touched and b["path"] not in dropped:
+                guarded("diverging unwrap_or_else", diverging_unwrap_or_else, b, bodies, log)
+                for what, fn_ in (("bool::then desugaring", lambda b_: desugar_bool_then(b_, bodies, log)),
+                                  ("retain desugaring", lambda b_: desugar_retain(b_, bodies, known_uses, log)),
+                                  ("Option combinator desugaring", lambda b_: desugar_option_combinators(b_, bodies, known_uses, log)),
+                                  ("adaptor desugaring", lambda b_: desugar_body(b_, bodies, known_uses, log))):
+                    r = guarded(what, fn_, b)
+                    if r:
+                        spliced_closures |= r
     for b in data["bodies"]:
         if b.get("derived") or b["path"] in dropped:
             continue
